@@ -35,12 +35,12 @@ func kvLookupVisitsEveryTable(r *core.Run) {
 			}
 			cnt++
 			if call == nil {
-				r.Bad("lookup-visits-every-table", name, site(r, instrPos(l.Phi)), "the loop over the tables does not call Table."+m)
+				r.Bad("lookup-visits-every-table", name, site(r, l.Pos()), "the loop over the tables does not call Table."+m)
 				break
 			}
 			ok := true
-			for _, p := range l.Header.Preds {
-				if l.Header.Dominates(p) && !call.Block().Dominates(p) {
+			for _, p := range l.Latches() {
+				if !call.Block().Dominates(p) {
 					ok = false
 				}
 			}
